@@ -749,7 +749,12 @@ def _cosmic_ray(shape, pixelscale, alpha_flux, proton_flux):
 
         row = int(np.floor(ray[i+1][0]))
         col = int(np.floor(ray[i+1][1]))
-        img[row, col] += electron_flux*dist
+        # a wall crossing on the boundary of the frame can round to an address
+        # just outside of it (-1, which would wrap around to the opposite
+        # edge, or shape[k] for very long frames): that charge has left the
+        # detector
+        if 0 <= row < img.shape[0] and 0 <= col < img.shape[1]:
+            img[row, col] += electron_flux*dist
 
     return img
 
